@@ -520,7 +520,10 @@ func seqAxioms(S, E string) string {
 `) + extra
 }
 
-const strExtra = `(assert (forall ((a Str)) (! (= (Str.cat a Str.empty) a) :pattern ((Str.cat a Str.empty)))))
+const strExtra = `; sequence-theory facts about concatenation and slices (true of finite sequences with extensional equality)
+(assert (forall ((s Str) (a Int) (b Int) (c Int)) (! (=> (and (<= 0 a) (<= a b) (<= b c) (<= c (Str.len s))) (= (Str.cat (Str.slice s a b) (Str.slice s b c)) (Str.slice s a c))) :pattern ((Str.cat (Str.slice s a b) (Str.slice s b c))))))
+(assert (forall ((s Str) (a Int) (b Int) (t Str)) (! (=> (and (<= 0 a) (<= a b) (< b (Str.len s)) (= (Str.len t) 1) (= (Str.nth t 0) (Str.nth s b))) (= (Str.cat (Str.slice s a b) t) (Str.slice s a (+ b 1)))) :pattern ((Str.cat (Str.slice s a b) t)))))
+(assert (forall ((a Str)) (! (= (Str.cat a Str.empty) a) :pattern ((Str.cat a Str.empty)))))
 (assert (forall ((a Str)) (! (= (Str.cat Str.empty a) a) :pattern ((Str.cat Str.empty a)))))
 `
 
